@@ -257,6 +257,8 @@ func genAdd(r *common.Rng) addCase {
 		switch {
 		case r.Chance(1, 12):
 			c.query = append(c.query, qparam{key: k, class: 'e'})
+		case r.Chance(1, 40):
+			c.query = append(c.query, qparam{key: k, class: 'g'})
 		case r.Chance(1, 8):
 			c.query = append(c.query, addOptValue(r, k, true))
 		default:
